@@ -154,6 +154,7 @@ def applyW (fixed : Bool) (u : User) (wm : World × Spec) (e : Eff) : World × S
   let (w, m) := wm
   match e with
   | .save s f => ({ w with caches := setCache w.caches ⟨u, s, f, restrict m s f, w.now⟩, now := w.now + 1 }, m)
+  | .rmTree d => ({ w with dirs := w.dirs.filter fun x => x.dir != d }, m)
   | _ =>
     match effKey e with
     | none => (w, applyMemG fixed e m)
